@@ -24,6 +24,8 @@ func (SimpleHashScheme) Block(h tmconsensus.Header) ([]byte, error) {
 	// Serialize the previous commit proof.
 	// First iterate over the voted blocks in order.
 	prevCommitBlocks := make([]string, 0, len(h.PrevCommitProof.Proofs))
+	// The formatted key is what gets sorted and written; keep the way back to the map key.
+	rawBlockKeys := make(map[string]string, len(h.PrevCommitProof.Proofs))
 	for bh := range h.PrevCommitProof.Proofs {
 		var blockKey string
 		if bh == "" {
@@ -32,6 +34,7 @@ func (SimpleHashScheme) Block(h tmconsensus.Header) ([]byte, error) {
 			blockKey = fmt.Sprintf("%x", bh)
 		}
 		prevCommitBlocks = append(prevCommitBlocks, blockKey)
+		rawBlockKeys[blockKey] = bh
 	}
 	sort.Strings(prevCommitBlocks)
 
@@ -41,7 +44,7 @@ func (SimpleHashScheme) Block(h tmconsensus.Header) ([]byte, error) {
 		}
 		buf.WriteString(blockHash)
 		buf.WriteString(" => (")
-		sigs := h.PrevCommitProof.Proofs[blockHash]
+		sigs := h.PrevCommitProof.Proofs[rawBlockKeys[blockHash]]
 
 		sigStrings := make([]string, len(sigs))
 		for j, sig := range sigs {
